@@ -2,6 +2,7 @@ import re
 """C04 - typed decoding agrees with the RFC 8949 data model (DESIGN 5.4)."""
 from ..absint import Int, Adt, Atom, Slice, Tup, Ref, iv_and, iv_sub, iv_str, iv_min, iv_max, Abort, ty_range
 from .. import load, tables, mir, l1
+from .. import absint as _absint
 from . import acc, intdec
 from .acc import is_int, is_some_arg, is_none, is_unit
 from ..prims import OPTION, norm_adt
@@ -623,6 +624,9 @@ def t_chunk(ctx, prog):
                         if is_err and not d.get('truncated'):
                             if major == 3 and cls == 'Utf8':
                                 ctx.ok('T-CHUNK', k2 + '|utf8', nontrivial=False)
+                            elif cls == 'Overflow' and w == 8 and _absint.PTR_BITS < 64 and (not d.get('argset') or iv_min(d['argset']) > (1 << _absint.PTR_BITS) - 1):
+                                # 8-byte length on a 32-bit target: lengths >= 2^32 do not fit usize (shorter ones are the Ok rows)
+                                ctx.ok('T-CHUNK', k2 + '|usize', nontrivial=False)
                             else:
                                 ctx.violation('T-CHUNK', k2 + '|rejected', 'a definite chunk %s is rejected with %s' % (iv_str(part), cls), where)
                             continue
